@@ -484,7 +484,9 @@ def _await_descriptor_upload(tor_protocol, onion, progress, await_all_uploads):
                         uploaded.callback(onion)
 
         elif subtype == 'FAILED':
-            if hostname_matches('{}.onion'.format(args[1])):
+            # (a FAILED for a directory we saw no UPLOAD for is not an
+            # upload failure -- e.g. a failed *fetch* of our descriptor)
+            if hostname_matches('{}.onion'.format(args[1])) and args[3] in attempted_uploads:
                 failed_uploads.add(args[3])
                 translate_progress(
                     "wait_descriptor",
